@@ -2,5 +2,6 @@ pub mod drv;
 pub mod pat;
 pub mod props;
 pub mod run;
+pub mod soup;
 pub mod src;
 pub mod uni;
